@@ -19,7 +19,7 @@
    the behaviour). *)
 From Coq Require Import Lia.
 From Coq Require Import Permutation.
-From Torf Require Import Base Pipeline PipelineProofs FlowProofs ThreadProofs DeadlockProofs ConservationProofs ReaderDoneProofs DrainProofs VerifyTrueProofs VerifyFalseProofs CompleteProofs PipeExplore PipeExploreProofs NormProofs PipeConfigs.
+From Torf Require Import Base Pipeline PipelineProofs FlowProofs ThreadProofs DeadlockProofs ConservationProofs ReaderDoneProofs DrainProofs TerminationProofs VerifyTrueProofs VerifyFalseProofs CompleteProofs PipeExplore PipeExploreProofs NormProofs PipeConfigs.
 Open Scope Z_scope.
 
 (* soundness of the exploration: what the checker accepts holds for every reachable state *)
@@ -73,6 +73,32 @@ Theorem C03_no_piece_lost_unbounded : forall c s,
   Permutation (indices s) (map Z.of_nat (seq 0 (Z.to_nat (s_ridx s)))).
 Proof. exact no_piece_lost. Qed.
 Print Assumptions C03_no_piece_lost_unbounded.
+
+(* UNBOUNDED, "always terminates": from every state reachable under any schedule -- any number of hashers and
+   pieces, any callback plan (cancelling, raising), read fault, out-of-memory handling, refused additional hasher,
+   any clock -- some schedule leads to a state in which the call has returned; so under a fair scheduler every
+   call returns.  Proof (proofs/TerminationProofs.v): a measure of the remaining work (items still to read, pieces
+   in the queues and with the hashers, the program counters of reader, hashers, janitor and main) that some
+   enabled step strictly decreases as long as the call has not returned: the unproductive steps -- the idle
+   timeout of the vital hasher, the janitor's timeout and its re-scan while a hasher still runs -- are never the
+   only ones available (a strengthening of deadlock-freedom, using that the vital hasher, once started, is never
+   "new" again and sets the finalize event before it ends).  The second theorem bounds the number of steps of
+   that schedule by the measure of the current state. *)
+Theorem C03_can_always_finish : forall c s,
+  (1 <= cf_hashers c)%nat -> reach c s -> exists s', steps c s s' /\ s_mdone s' = true.
+Proof. exact can_always_finish. Qed.
+Print Assumptions C03_can_always_finish.
+
+Theorem C03_can_finish_within_measure : forall c s,
+  (1 <= cf_hashers c)%nat -> reach c s -> exists s', nsteps c (mu s) s s' /\ s_mdone s' = true.
+Proof. exact can_finish_within_measure. Qed.
+Print Assumptions C03_can_finish_within_measure.
+
+(* non-vacuity: the measure of the initial state of a run with six pieces and two hashers, and after 40 steps *)
+Example C03_measure_example :
+  let cfg := mk (map RPiece [11; 12; 13; 14; 15; 16]) 6 2 CbQuiet [] None in
+  (mu (init cfg), mu (auto_run 40 cfg (init cfg)), mu (auto_run 200 cfg (init cfg))) = (98, 35, 0)%nat.
+Proof. vm_compute. reflexivity. Qed.
 
 (* UNBOUNDED: a call that returns a verdict (True or False, no exception) has drained the pipeline: the reader has
    ended, and every piece it handed over has been collected -- nothing is left in the piece queue, with a hasher
